@@ -81,6 +81,8 @@ template <class P, class DistanceCallback> class CoverTreeWrapper
 
     inline int get_scale(ScalarType d)
     {
+        if (!(d > 0.))
+            return -2147483647 - 1;
         return (int)ceil(il2 * log(d));
     }
 
@@ -183,7 +185,8 @@ node<P> CoverTreeWrapper<P, DistanceCallback>::batch_insert(DistanceCallback& dc
     else
     {
         ScalarType max_dist = max_set(point_set); // O(|point_set|)
-        int next_scale = std::min(max_scale - 1, get_scale(max_dist));
+        // no scale exists for distance 0 (all points of the set coincide with p)
+        int next_scale = (max_dist > 0.) ? std::min(max_scale - 1, get_scale(max_dist)) : (-2147483647 - 1);
         if (next_scale == -2147483647 - 1) // We have points with distance 0.
         {
             v_array<node<P>> children;
